@@ -192,11 +192,11 @@ def handle (j : Json) : R Json := do
       | _ => .utf8⟩
     match ← strF j "fn" with
     | "write_to_file" =>
-      let o := writeToFileIn env r h d
+      let o := writeToFileAt env r h d
       return jObj [("model", outToJson o),
         ("spec", jObj [("fault", toJson r.hasFault),
-                       ("model_ok", toJson (specWriteToFile r h d o)),
-                       ("impl_ok", toJson (onImpl j outOfJson (specWriteToFile r h d)))]),
+                       ("model_ok", toJson (specWriteAt r h d o)),
+                       ("impl_ok", toJson (onImpl j outOfJson (specWriteAt r h d)))]),
         ("scope", toJson true)]
     | "dump_records" =>
       let o := dumpRecordsIn env r.records r.results h d
